@@ -107,7 +107,10 @@ func main() {
 	files["ShrinkFinal.v"] = genShrinkFinal() // t38x/shrinkfinal.go: statements of the final section of aofshrink (C09)
 	files["LiveHandover.v"] = genLiveHandover() // t38x/livehandover.go: what netServe's hand-over to live mode does to the PipelineReader (C16)
 	files["FollowSteps.v"] = genFollowSteps() // t38x/followsteps.go: guarded statements of the follower side of replication (C06)
+	files["ShrinkEntry.v"] = genShrinkEntry() // t38x/shrinkentry.go: entry section + epilogue of aofshrink, writes of s.shrinklog / s.shrinking (C08: a refused AOFSHRINK changes nothing)
 	files["ReplayTol.v"] = genReplayTol() // t38x/replaytol.go: commandErrIsFatal evaluated on every error sentinel + its use in loadAOF (C03)
+	files["PkgVars.v"] = genPkgVars() // t38x/pkgvars.go: package-level variables and their writes; what leaves a function that hands memory back to a sync.Pool (C11)
+	files["HookRetention.v"] = genHookRetention() // t38x/hookretention.go: origin of the options of every Tx.Set, writes through the shared hook-log defaults (C10)
 	if len(errs) > 0 {
 		for _, e := range errs {
 			fmt.Fprintln(os.Stderr, "t38x: obligation broken:", e)
